@@ -35,6 +35,16 @@ impl std::io::Seek for ChunkedWriter {
 
 /// framing oracle on one serialised message
 pub fn check_framing(out: &[u8], p: &APacket, what: &str) -> Result<(), Fail> {
+    match framing_verdict(out, p, what) {
+        // Where a compression pointer leads is C03's / C07's statement. If the verdict hinges on a name (a pointer that
+        // leads nowhere sensible), the message is framed a second time with every name ending at its first pointer:
+        // counts, entry boundaries and RDLENGTH against the in-place size of the content are all that framing is.
+        Err(f) if f.sig == "c04:framing" || f.sig == "c04:rdlength" => with_in_place_names(|| framing_verdict(out, p, what)),
+        r => r,
+    }
+}
+
+fn framing_verdict(out: &[u8], p: &APacket, what: &str) -> Result<(), Fail> {
     ensure!(out.len() >= 12, "c04:short", "{}: {} bytes", what, out.len());
     let w = walk(out).map_err(|e| Fail::new("c04:framing", format!("{}: the envelope walker fails: {:?}", what, e)))?;
     let want = [p.questions.len(), p.answers.len(), p.authorities.len(), p.additionals.len() + p.edns.is_some() as usize];
@@ -376,8 +386,12 @@ fn check_reparsed(input: &super::c11::In, case: &mut Case) -> Result<(), Fail> {
         ensure!(opts == opts_in_sections + model.edns.is_some() as usize, "c04:opt-count", "{}: {} OPT records written, the packet holds {}", what, opts, opts_in_sections + model.edns.is_some() as usize);
         Ok(())
     };
-    frame(&u, "build_bytes_vec of a parsed packet")?;
-    frame(&c, "build_bytes_vec_compressed of a parsed packet")?;
+    for (out, what) in [(&u, "build_bytes_vec of a parsed packet"), (&c, "build_bytes_vec_compressed of a parsed packet")] {
+        match frame(out, what) {
+            Err(f) if f.sig == "c04:framing" => with_in_place_names(|| frame(out, what))?,
+            r => r?,
+        }
+    }
     writers(&pk, &u, &c, 4, case, false)
 }
 
